@@ -1,0 +1,66 @@
+//go:build verif
+// +build verif
+
+package backend
+
+import (
+	"sync"
+	"time"
+)
+
+// hooks for the external verification harness, compiled only with build tag `verif`
+
+var verifStoppedBackends sync.Map
+
+func (b *backend) verifStopped() bool {
+	_, ok := verifStoppedBackends.LoadAndDelete(b)
+	return ok
+}
+
+// StopForVerif stops the background loops of a backend built by NewBackend:
+// the sequencer returns and closes the watch channel (so the hub closes all watchers),
+// the retry loop returns at its next tick.
+func StopForVerif(i Backend) {
+	b, ok := i.(*backend)
+	if !ok {
+		return
+	}
+	if s, ok := b.asyncFifoRetry.(interface{ StopForVerif() }); ok {
+		s.StopForVerif()
+	}
+	verifStoppedBackends.Store(b, struct{}{})
+}
+
+// ForgetForVerif drops the bookkeeping of a stopped backend so it can be collected
+func ForgetForVerif(i Backend) {
+	if b, ok := i.(*backend); ok {
+		verifStoppedBackends.Delete(b)
+	}
+}
+
+// SetRetryIntervalsForVerif overrides the retry / check interval used by backends created afterwards
+func SetRetryIntervalsForVerif(retry, check time.Duration) {
+	retryInterval = retry
+	checkInterval = check
+}
+
+// SetEventsTTLForVerif overrides the TTL (seconds) of event keys used by backends created afterwards
+func SetEventsTTLForVerif(seconds int64) {
+	eventsTTL = seconds
+}
+
+// RetryQueueLenForVerif returns the number of unknown-outcome writes waiting for repair
+func RetryQueueLenForVerif(i Backend) int {
+	if b, ok := i.(*backend); ok {
+		return b.asyncFifoRetry.Size()
+	}
+	return 0
+}
+
+// RetryMinRevisionForVerif returns the oldest queued unknown-outcome revision (0 if none)
+func RetryMinRevisionForVerif(i Backend) uint64 {
+	if b, ok := i.(*backend); ok {
+		return b.asyncFifoRetry.MinRevision()
+	}
+	return 0
+}
